@@ -441,15 +441,35 @@ structure Cert where
   issuer : Bytes               -- cert.Leaf.RawIssuer
   deriving Repr, DecidableEq
 
-/-- `certloader.Certificate`: leaf + the certificates it was loaded with (each: RawSubject, public key) -/
+/-- one of the certificates a `certloader.Certificate` was loaded with / one of the certificates carried by a signature -/
+structure LCert where
+  subject : Bytes              -- RawSubject
+  issuer : Bytes               -- RawIssuer
+  key : PubKey
+  isLeaf : Bool                -- `cert == s.Leaf` (pointer equality in `Chain()`); irrelevant once carried
+  deriving Repr, DecidableEq
+
+/-- `certloader.Certificate`: leaf + the certificates it was loaded with, in order -/
 structure Loaded where
   leaf : Cert
-  chain : List (Bytes × PubKey)
+  chain : List LCert
   deriving Repr, DecidableEq
 
 /-- `(*Certificate).Issuer()`: first certificate whose RawSubject equals the leaf's RawIssuer -/
-def issuerOf (c : Loaded) : Option PubKey :=
-  (c.chain.find? (fun e => e.1 = c.leaf.issuer)).map (·.2)
+def issuerCert (c : Loaded) : Option LCert :=
+  c.chain.find? (fun e => e.subject = c.leaf.issuer)
+
+def issuerOf (c : Loaded) : Option PubKey := (issuerCert c).map (·.key)
+
+/-- the loop of `(*Certificate).Chain()`: self-signed certificates after the first position and the leaf itself are left out -/
+def chainRest : Nat → List LCert → List LCert
+  | _, [] => []
+  | i, x :: rest =>
+    if (i > 0 ∧ x.issuer = x.subject) ∨ x.isLeaf then chainRest (i + 1) rest else x :: chainRest (i + 1) rest
+
+/-- `(*Certificate).Chain()`: the leaf first -/
+def chainOf (c : Loaded) : List LCert :=
+  ⟨c.leaf.subject, c.leaf.issuer, c.leaf.key, true⟩ :: chainRest 0 c.chain
 
 /-- an etree attribute: namespace prefix (`Space`), local key, value -/
 structure XAttr where
@@ -459,11 +479,13 @@ structure XAttr where
   deriving Repr, DecidableEq
 
 /-- the identity-relevant part of a manifest: attributes of the first top-level `assemblyIdentity`
-    (`none` = there is no such element) and the top-level `publisherIdentity` elements (name, issuerKeyHash) in order;
+    (`none` = there is no such element), the top-level `publisherIdentity` elements (unprefixed `name` and `issuerKeyHash`
+    attributes) in order, the text of `as:X509SubjectName` in the licence (`none` = no such element);
     `others` stands for everything else under the root. -/
 structure Manifest (α : Type) where
   asi : Option (List XAttr)
   publishers : List (String × String)
+  licSubject : Option String
   others : α
 
 /-- `Element.CreateAttr(k, v)` for an unprefixed `k`: replace the value of the first attribute with an empty prefix and
@@ -523,6 +545,7 @@ def signIdent {α} (sha1 : Bytes → Bytes) (m : Manifest α) (c : Loaded) : Res
       | .ok (name, ikh) =>
         .ok { asi := some (createAttr "publicKeyToken" token attrs),
               publishers := [(name, ikh)],          -- RemoveElements(root, "publisherIdentity"); CreateElement
+              licSubject := some name,              -- makeLicense: as:X509SubjectName (the old Signature is removed)
               others := m.others }
       | .err e => .err e
       | .panic p => .panic p
@@ -532,27 +555,89 @@ def signIdent {α} (sha1 : Bytes → Bytes) (m : Manifest α) (c : Loaded) : Res
   | .diverge => .diverge
 
 /-- `Element.SelectAttrValue(k, "")` for an unprefixed `k`: the first attribute with that local key, *whatever its
-    prefix* (etree's `spaceMatch("", _)` is always true) -/
+    prefix* (etree's `spaceMatch("", _)` is always true).  What `Sign` / `Verify` used before the repair. -/
+def attrValueOrig (k : String) : List XAttr → String
+  | [] => ""
+  | a :: rest => if a.key = k then a.value else attrValueOrig k rest
+
+/-- `unprefixedAttr` (repaired code): the attribute `CreateAttr(k)` writes – empty prefix and that key -/
 def attrValue (k : String) : List XAttr → String
   | [] => ""
-  | a :: rest => if a.key = k then a.value else attrValue k rest
+  | a :: rest => if a.space = "" ∧ a.key = k then a.value else attrValue k rest
 
-/-- the identity comparison of `appmanifest.Verify` once both XML signatures have checked out under key `k`:
-    only the token is compared -/
-def verifyIdent {α} (sha1 : Bytes → Bytes) (m : Manifest α) (k : PubKey) : Res Unit :=
+/-- the identity comparison of the original `appmanifest.Verify` once both XML signatures have checked out under key
+    `k`: only the token is compared, and it is looked up by local name -/
+def verifyIdentOrig {α} (sha1 : Bytes → Bytes) (m : Manifest α) (k : PubKey) : Res Unit :=
   match m.asi with
   | none => .err "missing-assemblyIdentity"
   | some attrs =>
     match publicKeyToken sha1 k with
-    | .ok token => if attrValue "publicKeyToken" attrs ≠ token then .err "publicKeyToken-mismatch" else .ok ()
+    | .ok token => if attrValueOrig "publicKeyToken" attrs ≠ token then .err "publicKeyToken-mismatch" else .ok ()
     | .err e => .err e
     | .panic p => .panic p
     | .diverge => .diverge
 
-/-- `xmldsig.parsePublicKey` (lib/xmldsig/verify.go): the `Exponent` of an `RSAKeyValue` is refused when
-    `ebig.BitLen() > 30`; `Sign` writes any exponent.  (Both XML signatures of a manifest carry a KeyValue.) -/
-def xmlKeyValueOk : PubKey → Bool
+/-- does one of the carried certificates named like the leaf's issuer have this key hash? -/
+def issuerHashMatches (sha1 : Bytes → Bytes) (ikh : String) (c : LCert) : Bool :=
+  match skidStream c.key with
+  | .ok s => hexStr (sha1 s) = ikh
+  | _ => false
+
+/-- `checkPublisher` (repaired `Verify`) for the leaf found among the carried certificates -/
+def checkPublisher {α} (sha1 : Bytes → Bytes) (m : Manifest α) (leaf : LCert) (carried : List LCert) : Res Unit :=
+  match m.publishers with
+  | [] => .err "publisher-missing"
+  | _ :: _ :: _ => .err "publisher-multiple"
+  | [(name, ikh)] =>
+    match formatPkixName .msosco leaf.subject with
+    | .ok n =>
+      if name ≠ bytesToString n then .err "publisher-name-mismatch"
+      else
+        match m.licSubject with
+        | none => .err "license-subject-missing"
+        | some s =>
+          if s ≠ bytesToString n then .err "license-subject-mismatch"
+          else
+            let cands := carried.filter (fun c => c.subject = leaf.issuer)
+            if cands.isEmpty then .ok ()                 -- no certificate named like the issuer: the field cannot be judged
+            else if cands.any (issuerHashMatches sha1 ikh) then .ok ()
+            else .err "publisher-ikh-mismatch"
+    | .err e => .err e
+    | .panic p => .panic p
+    | .diverge => .diverge
+
+/-- the identity comparisons of the repaired `appmanifest.Verify` once both XML signatures have checked out under key
+    `k`; `carried` = the certificates of the licence signature's X509Data (`Sign` puts `Chain()` there), the leaf is the first with key `k`
+    (`Signature.Leaf`) -/
+def verifyIdent {α} (sha1 : Bytes → Bytes) (m : Manifest α) (k : PubKey) (carried : List LCert) : Res Unit :=
+  match m.asi with
+  | none => .err "missing-assemblyIdentity"
+  | some attrs =>
+    match publicKeyToken sha1 k with
+    | .ok token =>
+      if attrValue "publicKeyToken" attrs ≠ token then .err "publicKeyToken-mismatch"
+      else
+        match carried.find? (fun c => c.key = k) with
+        | none => .err "no-leaf"
+        | some leaf => checkPublisher sha1 m leaf carried
+    | .err e => .err e
+    | .panic p => .panic p
+    | .diverge => .diverge
+
+/-- `xmldsig.parsePublicKey` (lib/xmldsig/verify.go) before the repair: the `Exponent` of an `RSAKeyValue` was refused
+    when `ebig.BitLen() > 30`, while `Sign` writes any exponent (both XML signatures of a manifest carry a KeyValue) -/
+def xmlKeyValueOkOrig : PubKey → Bool
   | .rsa _ e => e < 2 ^ 30
+  | _ => true
+
+/-- repaired: `ebig.BitLen() > 31` is refused, i.e. exactly the exponents crypto/rsa refuses too -/
+def xmlKeyValueOk : PubKey → Bool
+  | .rsa _ e => e < 2 ^ 31
+  | _ => true
+
+/-- crypto/rsa `checkPub`: public exponents from 2 to 2^31-1 -/
+def rsaUsable : PubKey → Bool
+  | .rsa _ e => 2 ≤ e ∧ e < 2 ^ 31
   | _ => true
 
 end Relic.Ident
